@@ -769,10 +769,10 @@ _ure_posix_ccl(cp, limit, sym, b)
   b = b;
 
   /*
-   * If the number of characters left is less than 7, then this cannot be
-   * interpreted as one of the colon delimited classes.
+   * If the number of characters left is less than 5 (":gfx:"), then this
+   * cannot be interpreted as one of the colon delimited classes.
    */
-  if (limit < 7)
+  if (limit < 5)
     return 0;
 
   sp = cp;
@@ -786,7 +786,7 @@ _ure_posix_ccl(cp, limit, sym, b)
     if (n == 0)
       return 0;
 
-    if (*sp == ':' && (i == 6 || i == 7)) {
+    if (*sp == ':' && i > 0) {
       sp++;
       break;
     }
